@@ -65,6 +65,19 @@ def check(an: Analysis) -> None:
             regs["result"] = (n, c.args[0] if c.args else None)
         elif callee == "asyncio.AbstractEventLoop.call_later":
             regs["timeout"] = (n, c.args[1] if len(c.args) > 1 else None)
+    # callbacks written as bound methods of a private helper object (the per-call state moved from closures into a class)
+    # cannot be followed: the roles of `self.<field>` inside them are tied to constructor arguments, which is not modelled
+    helper_methods = []
+    for n in g.nodes:
+        if n.kind == "call":
+            for a_ in [*n.ast.args, *[k.value for k in n.ast.keywords]]:  # type: ignore[union-attr]
+                if isinstance(a_, ast.Attribute) and isinstance(a_.value, ast.Name):
+                    t_ = prog.expr_type(f, a_.value)
+                    ci_ = prog.classes.get(t_.name) if t_ is not None else None
+                    if ci_ is not None and ci_.module is f.module and ci_.name.startswith("_") and ci_.method(a_.attr) is not None and ci_ is not f.cls:
+                        helper_methods.append(f"{ci_.name}.{a_.attr}")
+    if helper_methods and len(regs) < 3:
+        raise AnalysisError(f"C16: the callbacks of the timeout call are methods of a private helper object ({sorted(set(helper_methods))}); per-call state kept in a helper class instead of closures is not modelled (unrecognised idiom)")
     awaits = [n for n in g.nodes if n.kind == "await"]
     closures: dict[str, FunctionInfo] = {}
     param_roles: dict[str, dict[str, set[str]]] = {}
